@@ -454,11 +454,35 @@ impl Enc {
     }
 }
 
+const NONFINITE_ATTR: &str = "C13:otlp:json:non-finite-float:attribute-null";
+const NONFINITE_POINT: &str = "C13:otlp:json:non-finite-float:metric-point-null";
+
+thread_local! {
+    /// set while comparing with the known JSON rendering of non-finite doubles (`null`) tolerated
+    static NONFINITE_NULL_OK: std::cell::Cell<bool> = const { std::cell::Cell::new(false) };
+}
+
 fn f64_matches(want: f64, got: Option<f64>) -> bool {
     match got {
-        None => !want.is_finite(),
+        // JSON `null`: only ever tolerated for a non-finite value, and only in the lenient pass
+        None => !want.is_finite() && NONFINITE_NULL_OK.with(|f| f.get()),
         Some(g) => (want.is_nan() && g.is_nan()) || want.to_bits() == g.to_bits(),
     }
+}
+
+/// `any_matches`, additionally accepting `null` where the model has a non-finite float.
+fn any_matches_nonfinite_null(img: &AnyImage, got: &AnyObs, path: &str) -> Result<(), String> {
+    NONFINITE_NULL_OK.with(|f| f.set(true));
+    let r = any_matches(img, got, path);
+    NONFINITE_NULL_OK.with(|f| f.set(false));
+    r
+}
+
+fn point_matches_nonfinite_null(want: PointWant, got: &PointValue) -> bool {
+    NONFINITE_NULL_OK.with(|f| f.set(true));
+    let r = point_matches(want, got);
+    NONFINITE_NULL_OK.with(|f| f.set(false));
+    r
 }
 
 fn any_matches(img: &AnyImage, got: &AnyObs, path: &str) -> Result<(), String> {
@@ -590,6 +614,10 @@ fn check_attrs(cx: &mut Ctx, me: &ModelEvent, idx: u64, enc: Enc, signal: &str, 
         }
         let g = attr(got, k).unwrap();
         if let Err(why) = any_matches(&img, g, "$") {
+            if enc == Enc::Json && any_matches_nonfinite_null(&img, g, "$").is_ok() {
+                cx.violation(me, idx, NONFINITE_ATTR, format!("JSON {}: property {:?} ({}) exported as {} — a non-finite float is written as `null` instead of \"NaN\" / \"Infinity\" / \"-Infinity\"", signal, k, p.describe(), clip(&format!("{:?}", g))));
+                continue;
+            }
             if enc == Enc::Proto && any_matches(&strip_img(&img), g, "$").is_ok() {
                 cx.violation(me, idx, "C13:otlp:proto:array-null-element-dropped", format!("protobuf {}: property {:?} ({}) exported as {} — null elements of a sequence are dropped, later elements shift position ({})", signal, k, p.describe(), clip(&format!("{:?}", g)), why));
                 continue;
@@ -617,6 +645,10 @@ fn check_exception(cx: &mut Ctx, me: &ModelEvent, idx: u64, enc: Enc, signal: &s
             None => cx.violation(me, idx, &format!("C13:otlp:{}:exception-message-missing", signal), format!("{} {}: err present but no exception.message", enc.name(), signal)),
             Some(g) => {
                 if let Err(why) = any_matches(&img, g, "$") {
+                    if enc == Enc::Json && any_matches_nonfinite_null(&img, g, "$").is_ok() {
+                        cx.violation(me, idx, NONFINITE_ATTR, format!("JSON {}: err ({}) exported as exception.message {} — a non-finite float is written as `null`", signal, p.describe(), clip(&format!("{:?}", g))));
+                        return;
+                    }
                     if enc == Enc::Proto && any_matches(&strip_img(&img), g, "$").is_ok() {
                         cx.violation(me, idx, "C13:otlp:proto:array-null-element-dropped", format!("protobuf {}: err ({}) exported as exception.message {} — null elements of a sequence are dropped ({})", signal, p.describe(), clip(&format!("{:?}", g)), why));
                         return;
@@ -769,9 +801,11 @@ fn point_of(m: &M) -> Option<PointWant> {
     match m {
         M::F32(v) => Some(PointWant::Double(*v as f64)),
         M::F64(v) => Some(PointWant::Double(*v)),
+        // a data point is a 64-bit signed integer or a double: integers outside i64 become doubles
         other => match other.as_int() {
-            Some(Ok(i)) => i64::try_from(i).ok().map(PointWant::Int),
-            _ => None,
+            Some(Ok(i)) => Some(i64::try_from(i).map(PointWant::Int).unwrap_or(PointWant::Double(i as f64))),
+            Some(Err(u)) => Some(PointWant::Double(u as f64)),
+            None => None,
         },
     }
 }
@@ -855,7 +889,9 @@ fn check_metric(cx: &mut Ctx, me: &ModelEvent, idx: u64, enc: Enc, r: &MetricRec
     match (metric_value(me), want_data.is_some()) {
         (MetricValue::Scalar(w), _) => {
             let zero_sum = is_sum && matches!((w, r.points.first().map(|p| &p.value)), (PointWant::Double(a), Some(PointValue::Double(Some(b)))) if a == 0.0 && *b == 0.0);
-            if r.points.len() != 1 || !(point_matches(w, &r.points[0].value) || zero_sum) {
+            if enc == Enc::Json && r.points.len() == 1 && !point_matches(w, &r.points[0].value) && point_matches_nonfinite_null(w, &r.points[0].value) {
+                cx.violation(me, idx, NONFINITE_POINT, format!("JSON metrics: the non-finite sample {:?} is exported as a data point with \"asDouble\":null", w));
+            } else if r.points.len() != 1 || !(point_matches(w, &r.points[0].value) || zero_sum) {
                 cx.violation(me, idx, "C13:otlp:metrics:point-value:scalar", format!("{} metrics: points {:?}, expected one point {:?}", enc.name(), r.points.iter().map(|p| &p.value).collect::<Vec<_>>(), w));
             } else if !wild && (r.points[0].start != start || r.points[0].time != end) {
                 cx.violation(me, idx, "C13:otlp:metrics:point-time", format!("{} metrics: point {}..{}, expected {}..{}", enc.name(), r.points[0].start, r.points[0].time, start, end));
@@ -863,7 +899,10 @@ fn check_metric(cx: &mut Ctx, me: &ModelEvent, idx: u64, enc: Enc, r: &MetricRec
         }
         (MetricValue::Seq(ws), true) if !is_sum => {
             let ok = r.points.len() == ws.len() && ws.iter().zip(&r.points).all(|(w, p)| point_matches(*w, &p.value));
-            if !ok {
+            let ok_lenient = r.points.len() == ws.len() && ws.iter().zip(&r.points).all(|(w, p)| point_matches_nonfinite_null(*w, &p.value));
+            if !ok && enc == Enc::Json && ok_lenient {
+                cx.violation(me, idx, NONFINITE_POINT, format!("JSON metrics: non-finite buckets of {:?} are exported as data points with \"asDouble\":null", ws));
+            } else if !ok {
                 cx.violation(me, idx, "C13:otlp:metrics:point-value:sequence", format!("{} metrics: gauge points {:?}, expected {:?}", enc.name(), r.points.iter().map(|p| &p.value).collect::<Vec<_>>(), ws));
             }
             let mut last = start;
@@ -896,6 +935,8 @@ fn check_metric(cx: &mut Ctx, me: &ModelEvent, idx: u64, enc: Enc, r: &MetricRec
                     (Acc::Unsettled, _) => Acc::Unsettled,
                 };
             }
+            let sum_nonfinite = matches!(&acc, Acc::Float(x) if !x.is_finite());
+            let json_null = enc == Enc::Json && sum_nonfinite && r.points.len() == 1 && r.points[0].value == PointValue::Double(None);
             let ok = r.points.len() == 1
                 && match acc {
                     Acc::Unsettled => true,
@@ -903,11 +944,14 @@ fn check_metric(cx: &mut Ctx, me: &ModelEvent, idx: u64, enc: Enc, r: &MetricRec
                     Acc::Float(sum) => match &r.points[0].value {
                         PointValue::Double(Some(g)) if sum.is_finite() => (g - sum).abs() <= 1e-9 * sum.abs().max(1.0),
                         PointValue::Double(Some(g)) => !g.is_finite(),
-                        PointValue::Double(None) => !sum.is_finite(),
+                        // JSON `null`: never a faithful double
+                        PointValue::Double(None) => false,
                         _ => false,
                     },
                 };
-            if !ok {
+            if json_null {
+                cx.violation(me, idx, NONFINITE_POINT, format!("JSON metrics: the non-finite sum over {:?} is exported as a data point with \"asDouble\":null", ws));
+            } else if !ok {
                 cx.violation(me, idx, "C13:otlp:metrics:point-value:sum", format!("{} metrics: sum points {:?} for buckets {:?}", enc.name(), r.points.iter().map(|p| &p.value).collect::<Vec<_>>(), ws));
             }
         }
